@@ -1272,7 +1272,7 @@ fn run_block(inp: &[u8], brk: i64) -> String {
 }
 
 // ---------- cache histories ----------
-fn run_cache_k<K: std::hash::Hash + Eq + core::fmt::Debug>(cap: u64, ops: &[&str], mk: fn(u64) -> K) -> String {
+fn run_cache_k<K: std::hash::Hash + Eq + core::fmt::Debug>(cap: u64, ops: &[&str], mk: fn(u64) -> K, sparse: bool) -> String {
     let mut c: SliceCache<K> = SliceCache::new(cap as usize);
     let mut keys: Vec<u64> = vec![];
     let mut s = String::new();
@@ -1318,6 +1318,11 @@ fn run_cache_k<K: std::hash::Hash + Eq + core::fmt::Debug>(cap: u64, ops: &[&str
             "l" => write!(s, " l={}", c.len()).unwrap(),
             "f" => write!(s, " f={}", c.full() as u8).unwrap(),
             _ => panic!("bad op"),
+        }
+        // sparse histories: only what the operations themselves return is observed (a lookup that has side effects,
+        // e.g. a "last hit" memo, is perturbed by observing every key after every step)
+        if sparse {
+            continue;
         }
         // observation after every operation
         #[cfg(bitcoin_slices_verif)]
@@ -1381,9 +1386,9 @@ impl std::hash::Hash for WeakKey {
 }
 /// every history runs with plain u64 keys and with colliding keys; the observations must be the same, and when they
 /// are not it is the colliding run that is reported (so that the model comparison and the oracles see it)
-fn run_cache(cap: u64, ops: &[&str]) -> String {
-    let plain = run_cache_k::<u64>(cap, ops, |k| k);
-    let weak = catch_unwind(AssertUnwindSafe(|| run_cache_k::<WeakKey>(cap, ops, WeakKey))).unwrap_or_else(|_| " panic=".to_string());
+fn run_cache(cap: u64, ops: &[&str], sparse: bool) -> String {
+    let plain = run_cache_k::<u64>(cap, ops, |k| k, sparse);
+    let weak = catch_unwind(AssertUnwindSafe(|| run_cache_k::<WeakKey>(cap, ops, WeakKey, sparse))).unwrap_or_else(|_| " panic=".to_string());
     if weak != plain { format!("{} x_weakkey=0", weak) } else { plain }
 }
 
@@ -1648,7 +1653,7 @@ fn main() {
             "K" => {
                 let id = f[1];
                 let cap: u64 = f[2].parse().unwrap();
-                let r = catch_unwind(AssertUnwindSafe(|| run_cache(cap, &f[3..])));
+                let r = catch_unwind(AssertUnwindSafe(|| run_cache(cap, &f[3..], id.starts_with("ks"))));
                 match r {
                     Ok(s) => writeln!(out, "{}{}", id, s).unwrap(),
                     Err(_) => writeln!(out, "{} panic=", id).unwrap(),
